@@ -297,9 +297,21 @@ def run(rep, tier):
     return hs
 
 
+def param_lint(rep):
+    from . import gparam
+    hits, nfun = gparam.scan()
+    rep.rule("C02.param", "no lookup or serialiser inspects the TYPE of its backend (the probe-based contracts transfer to every stack)", floor=30)
+    if hits:
+        f, ln, fn, seg = hits[0]
+        raise AnalysisBroken("C02 parametricity: %s:%d `%s` inspects its backend's type (%s); contracts established over the opaque probe cannot be transferred to real stacks - re-confirm by reading" % (f, ln, fn, seg))
+    for i in range(nfun):
+        rep.ok("C02.param", "function body %d" % i)
+
+
 def check(tier):
     rep = Report("C02", tier, "other")
     declare(rep)
+    param_lint(rep)
     hs = run(rep, tier)
     # the arithmetic layers' contracts, on their quick universes
     sub = []
